@@ -597,3 +597,211 @@ pub fn class_string(u: &mut Choice, alphabet: &[&[u8]], maxsyms: usize, out: &mu
         out.extend_from_slice(u.pick_bytes(alphabet));
     }
 }
+
+// ---------------------------------------------------------------------------------
+// G5: adversarial parametric scale families (C01, C20)
+// ---------------------------------------------------------------------------------
+
+use crate::real::{Entry, C_IGNORE_REQ, C_IGNORE_RESP, C_MULTILINE, C_MULTISPACE_REQ, C_MULTISPACE_RESP,
+    C_SPACES_AFTER_NAME, C_SPACE_BEFORE_FIRST};
+
+pub const N_FAMILIES: usize = 30;
+
+pub fn family_name(f: usize) -> &'static str {
+    [
+        "folded lines (A: b + (CRLF SP c)^n)", "whitespace-only folds", "many ignored lines", "one huge ignored line",
+        "whitespace run after the colon", "whitespace before the first header", "whitespace between name and colon",
+        "trailing whitespace in a value", "multi-space request line", "multi-space status line",
+        "HTAB every 8th byte of a value", "HTAB every 16th byte", "HTAB every 31st byte", "HTAB every 32nd byte",
+        "one SWAR false-positive byte per word in a target", "many minimal headers", "long header name",
+        "long target", "long reason", "leading empty lines", "long chunk extension", "long value of obs-text",
+        "G1-like block repeated", "long value then NUL (late error)", "many headers then bad line (late error)",
+        "fold + ignore: folded lines with a bad byte late", "space-before-first + ignore: whitespace-led bad lines",
+        "long method token", "pure CR/LF", "target of multi-byte UTF-8",
+    ][f % N_FAMILIES]
+}
+
+/// (entry, cfg, buffer) of family `f` at roughly `size` bytes.
+pub fn family(f: usize, size: usize) -> (Entry, u8, Vec<u8>) {
+    let mut b: Vec<u8> = Vec::with_capacity(size + 64);
+    let resp = b"HTTP/1.1 200 OK\r\n";
+    let req = b"GET / HTTP/1.1\r\n";
+    let rep = |b: &mut Vec<u8>, unit: &[u8], size: usize| {
+        while b.len() + unit.len() <= size {
+            b.extend_from_slice(unit);
+        }
+    };
+    match f % N_FAMILIES {
+        0 => {
+            b.extend_from_slice(resp);
+            b.extend_from_slice(b"A: b");
+            rep(&mut b, b"\r\n c", size);
+            b.extend_from_slice(b"\r\n\r\n");
+            (Entry::RespCfg, C_MULTILINE, b)
+        }
+        1 => {
+            b.extend_from_slice(resp);
+            b.extend_from_slice(b"A:");
+            rep(&mut b, b"\r\n \t", size);
+            b.extend_from_slice(b"\r\n\r\n");
+            (Entry::RespCfg, C_MULTILINE, b)
+        }
+        2 => {
+            b.extend_from_slice(req);
+            rep(&mut b, b"bad\n", size);
+            b.extend_from_slice(b"\r\n");
+            (Entry::ReqCfg, C_IGNORE_REQ, b)
+        }
+        3 => {
+            b.extend_from_slice(resp);
+            b.extend_from_slice(b"bad line ");
+            rep(&mut b, b"x y z : ", size);
+            b.extend_from_slice(b"\r\n\r\n");
+            (Entry::RespCfg, C_IGNORE_RESP, b)
+        }
+        4 => {
+            b.extend_from_slice(b"A:");
+            rep(&mut b, b" \t", size);
+            b.extend_from_slice(b"v\r\n\r\n");
+            (Entry::Headers, 0, b)
+        }
+        5 => {
+            b.extend_from_slice(resp);
+            rep(&mut b, b" \t", size);
+            b.extend_from_slice(b"A: b\r\n\r\n");
+            (Entry::RespCfg, C_SPACE_BEFORE_FIRST, b)
+        }
+        6 => {
+            b.extend_from_slice(resp);
+            b.extend_from_slice(b"Name");
+            rep(&mut b, b" \t", size);
+            b.extend_from_slice(b": v\r\n\r\n");
+            (Entry::RespCfg, C_SPACES_AFTER_NAME, b)
+        }
+        7 => {
+            b.extend_from_slice(b"A: v");
+            rep(&mut b, b" \t", size);
+            b.extend_from_slice(b"\r\n\r\n");
+            (Entry::Headers, 0, b)
+        }
+        8 => {
+            b.extend_from_slice(b"GET");
+            rep(&mut b, b" ", size / 2);
+            b.extend_from_slice(b"/");
+            rep(&mut b, b" ", size);
+            b.extend_from_slice(b"HTTP/1.1\r\n\r\n");
+            (Entry::ReqCfg, C_MULTISPACE_REQ, b)
+        }
+        9 => {
+            b.extend_from_slice(b"HTTP/1.1");
+            rep(&mut b, b" ", size / 2);
+            b.extend_from_slice(b"200");
+            rep(&mut b, b" ", size);
+            b.extend_from_slice(b"OK\r\n\r\n");
+            (Entry::RespCfg, C_MULTISPACE_RESP, b)
+        }
+        10..=13 => {
+            let period = [8usize, 16, 31, 32][(f % N_FAMILIES) - 10];
+            b.extend_from_slice(b"A: v");
+            while b.len() < size {
+                b.push(if b.len() % period == 0 { b'\t' } else { b'x' });
+            }
+            b.extend_from_slice(b"\r\n\r\n");
+            (Entry::Headers, 0, b)
+        }
+        14 => {
+            b.extend_from_slice(b"GET /");
+            while b.len() < size {
+                // a byte just above a byte < 0x21 would be a SWAR borrow false positive;
+                // targets cannot hold those, so alternate boundary bytes instead
+                b.push(if b.len() % 8 == 3 { 0x21 } else { 0x80 | (b.len() % 100) as u8 });
+            }
+            b.extend_from_slice(b" HTTP/1.1\r\n\r\n");
+            (Entry::ReqParse, 0, b)
+        }
+        15 => {
+            rep(&mut b, b"a:\n", size);
+            b.extend_from_slice(b"\n");
+            (Entry::Headers, 0, b)
+        }
+        16 => {
+            rep(&mut b, b"Nnnnnnnn", size);
+            b.extend_from_slice(b": v\r\n\r\n");
+            (Entry::Headers, 0, b)
+        }
+        17 => {
+            b.extend_from_slice(b"GET /");
+            rep(&mut b, b"abcdefgh", size);
+            b.extend_from_slice(b" HTTP/1.1\r\n\r\n");
+            (Entry::ReqParse, 0, b)
+        }
+        18 => {
+            b.extend_from_slice(b"HTTP/1.1 200 ");
+            rep(&mut b, b"reason \t", size);
+            b.extend_from_slice(b"\r\n\r\n");
+            (Entry::RespParse, 0, b)
+        }
+        19 => {
+            rep(&mut b, b"\r\n\n", size);
+            b.extend_from_slice(b"GET / HTTP/1.1\r\n\r\n");
+            (Entry::ReqParse, 0, b)
+        }
+        20 => {
+            b.extend_from_slice(b"1f;");
+            rep(&mut b, b"ext=\"v\n\";", size);
+            b.extend_from_slice(b"\r\n");
+            (Entry::Chunk, 0, b)
+        }
+        21 => {
+            b.extend_from_slice(b"A: ");
+            rep(&mut b, b"\xc3\xa9\xff\x80", size);
+            b.extend_from_slice(b"\r\n\r\n");
+            (Entry::Headers, 0, b)
+        }
+        22 => {
+            b.extend_from_slice(resp);
+            rep(&mut b, b"Host: example.com\r\nAccept: */*\r\nX-Y: a b\tc \r\nE:\r\n", size);
+            b.extend_from_slice(b"\r\n");
+            (Entry::RespParse, 0, b)
+        }
+        23 => {
+            b.extend_from_slice(b"A: ");
+            rep(&mut b, b"value ", size);
+            b.extend_from_slice(b"\x00\r\n\r\n");
+            (Entry::Headers, 0, b)
+        }
+        24 => {
+            b.extend_from_slice(req);
+            rep(&mut b, b"A: b\r\n", size);
+            b.extend_from_slice(b"bad line\r\n\r\n");
+            (Entry::ReqParse, 0, b)
+        }
+        25 => {
+            b.extend_from_slice(resp);
+            rep(&mut b, b"A: b\r\n c\r\n d\x01\r\n", size);
+            b.extend_from_slice(b"\r\n");
+            (Entry::RespCfg, C_MULTILINE | C_IGNORE_RESP, b)
+        }
+        26 => {
+            b.extend_from_slice(resp);
+            rep(&mut b, b" \tbad line\r\n", size);
+            b.extend_from_slice(b"\r\n");
+            (Entry::RespCfg, C_SPACE_BEFORE_FIRST | C_IGNORE_RESP, b)
+        }
+        27 => {
+            rep(&mut b, b"METHOD", size);
+            b.extend_from_slice(b" / HTTP/1.1\r\n\r\n");
+            (Entry::ReqParse, 0, b)
+        }
+        28 => {
+            rep(&mut b, b"\r\n", size);
+            (Entry::RespParse, 0, b)
+        }
+        _ => {
+            b.extend_from_slice(b"GET /");
+            rep(&mut b, b"\xe2\x82\xac\xc3\xa9", size);
+            b.extend_from_slice(b" HTTP/1.1\r\n\r\n");
+            (Entry::ReqParse, 0, b)
+        }
+    }
+}
